@@ -52,6 +52,10 @@ mod handle;
 #[path = "../../../verif/c20.rs"]
 pub(crate) mod verif_c20;
 
+#[cfg(litep2p_verif)]
+#[path = "../../../verif/c20_proto.rs"]
+pub(crate) mod verif_c20_proto;
+
 mod schema {
     pub(super) mod bitswap {
         include!(concat!(env!("OUT_DIR"), "/bitswap.rs"));
@@ -497,6 +501,9 @@ impl Bitswap {
         tracing::debug!(target: LOG_TARGET, "starting bitswap event loop");
 
         loop {
+            #[cfg(litep2p_verif)]
+            self.verif_snapshot();
+
             tokio::select! {
                 event = self.service.next() => match event {
                     Some(TransportEvent::ConnectionEstablished { peer, .. }) => {
